@@ -18,6 +18,11 @@ parse methods, the text returned by helpers), and every container reachable from
                                     preserved by _define_ref / store / declare_parameter / load / branch_update
   C30.lemma.symbols_private         refs / loads / stores are mutated only inside class Symbols
   C30.lemma.lookup_only             Parser.extensions (filled in tag-set order) is only ever used for lookups
+  C30.consttext.*                   every compile-time value whose str()/repr() is written into the generated source has a text that
+                                    is the same in every process: has_safe_repr accepts exact types only (no set / frozenset / arbitrary
+                                    objects / subclasses) and recurses into containers; the output fold (_output_child_to_const, also the
+                                    native code generator) raises Impossible unless has_safe_repr; Const nodes come from lexer tokens or
+                                    Const.from_untrusted; native: has_safe_repr(v) => repr(v), str(v) identical in 4 processes (bounded)
   C30.typing.probe (bounded)        the analyser's typing assumption, checked natively: every iteration site it classified
                                     as ordered never sees a set / frozenset while the corpus is compiled
   C30.native.hashseed (bounded)     a corpus of templates covering every statement kind compiled in subprocesses under 8
@@ -154,6 +159,13 @@ def corpus():
         "toplevel_mix": "{% set t1 = 1 %}{% macro t2() %}{% endmacro %}{% import 'lib' as t3 %}{% from 'lib' import t4, t5 %}{% set t6, t7 = 1, 2 %}{% block t8 %}{% endblock %}",
         "raw_and_comments": "{% raw %}{{ x }}{% endraw %}{# c #}a\n  b\n{%- if x -%} c {%- endif -%}",
         "overlay": "{% set a = 1 %}{% if a %}{% set a = 2 %}{% set b = 3 %}{% set c = 4 %}{% endif %}{% for a in xs %}{% set b = a %}{% endfor %}{{ a }}{{ b }}{{ c }}",
+        # compile-time folding of values whose text is not the same in every process (custom filters of the seed script)
+        "fold_generator": "{{ [1, 2]|unique }}{{ [3, 1]|unique|list }}",
+        "fold_set": "{{ 'x'|mkset }}",
+        "fold_frozenset_nested": "{{ 'x'|mknested }}",
+        "fold_object": "{{ 'x'|mkobj }}",
+        "fold_set_assigned": "{% set s = 'x'|mkset %}{{ s }}{% set t = ['x'|mkset, 1] %}{{ t }}",
+        "fold_set_argument": "{{ f('x'|mkset, k='y'|mkobj) }}{{ 'x'|mkset|length }}{{ ('x'|mkset)|sort|join(',') }}",
         "syntax_error_eof": "{% for a in xs %}{% if a %}{% block b %}",
         "syntax_error_tag": "{% for a in xs %}{% endif %}",
         "unknown_tag": "{% for a in xs %}{% if a %}{% frobnicate %}{% endif %}{% endfor %}",
@@ -170,6 +182,9 @@ out = {}
 want_src = set(sys.argv[1:])
 for is_async in (False, True):
     env = Environment(enable_async=is_async, extensions=["jinja2.ext.i18n", "jinja2.ext.do", "jinja2.ext.loopcontrols", "jinja2.ext.debug"])
+    env.filters["mkset"] = lambda v: {"alpha", "beta", "gamma", "delta", "epsilon", "zeta"}
+    env.filters["mknested"] = lambda v: [v, {"k": frozenset(["p", "q", "r", "s", "t", "u"])}]
+    env.filters["mkobj"] = lambda v: object()
     for name, src in corpus().items():
         try:
             code = env.compile(src, name, name + ".html", raw=True)
@@ -642,6 +657,234 @@ def symbols_tables(task, tier, seed):
     return rs
 
 
+# ------------------------------------------------------------------------------------------ text of compile-time values
+
+ALLOWED_CONST_TYPES = {"float", "complex", "int", "bool", "range", "str", "Markup", "tuple", "list", "dict"}
+CONTAINER_TYPES = {"tuple", "list", "dict", "set", "frozenset", "deque"}
+SINGLETONS = {"None", "NotImplemented", "Ellipsis"}
+
+
+def _types_in_test(test):
+    """-> (type names compared with type(value), names compared with `value is`), other = anything else in the test"""
+    types, singles, other = set(), set(), []
+    for n in ([test] if not isinstance(test, ast.BoolOp) else test.values):
+        if isinstance(n, ast.Compare) and len(n.ops) == 1:
+            l, op, r = n.left, n.ops[0], n.comparators[0]
+            is_type_of_value = isinstance(l, ast.Call) and isinstance(l.func, ast.Name) and l.func.id == "type" and len(l.args) == 1 and isinstance(l.args[0], ast.Name)
+            if is_type_of_value and isinstance(op, (ast.Is, ast.Eq)) and isinstance(r, (ast.Name, ast.Attribute)):
+                types.add(r.id if isinstance(r, ast.Name) else r.attr)
+                continue
+            if is_type_of_value and isinstance(op, ast.In) and isinstance(r, (ast.Set, ast.Tuple, ast.List)) and all(isinstance(e, (ast.Name, ast.Attribute)) for e in r.elts):
+                types.update(e.id if isinstance(e, ast.Name) else e.attr for e in r.elts)
+                continue
+            if isinstance(l, ast.Name) and isinstance(op, ast.Is) and isinstance(r, (ast.Name, ast.Constant)):
+                singles.add(r.id if isinstance(r, ast.Name) else repr(r.value))
+                continue
+        other.append(ast.unparse(n))
+    return types, singles, other
+
+
+def consttext_tables(task, tier, seed):
+    """every value whose str()/repr() is written into the generated source has a text that is the same in every process"""
+    import jinja2.compiler as C
+    import jinja2.nodes as N
+    import importlib
+    rs = []
+
+    def row(name, fails):
+        rs.append(Res(f"C30.consttext.{name}", "refuted" if fails else "discharged", "ast+table", 0, "; ".join(fails[:3])[:900], "table",
+                      witness={"failures": fails[:5]} if fails else None))
+
+    # ---- has_safe_repr accepts exact types only, each with a process-independent text; containers recurse into their elements
+    fails = []
+    node, _ = extract.function_ast(extract.resolve("jinja2.compiler:has_safe_repr"))
+    body = [s_ for s_ in node.body if not (isinstance(s_, ast.Expr) and isinstance(s_.value, ast.Constant))]
+    arg = node.args.args[0].arg
+    for n in ast.walk(node):
+        if isinstance(n, ast.Call) and isinstance(n.func, ast.Name) and n.func.id in ("isinstance", "issubclass", "hasattr", "callable"):
+            fails.append(f"has_safe_repr line {n.lineno} uses {n.func.id}(): a subclass or arbitrary object can define its own __repr__ (address, hash order)")
+    if not (body and isinstance(body[-1], ast.Return) and isinstance(body[-1].value, ast.Constant) and body[-1].value.value is False):
+        fails.append("has_safe_repr does not end with `return False` (unknown types must be rejected)")
+    for st_ in body[:-1]:
+        if not isinstance(st_, ast.If) or st_.orelse:
+            fails.append(f"has_safe_repr line {st_.lineno}: unexpected statement `{ast.unparse(st_)[:60]}`")
+            continue
+        types, singles, other = _types_in_test(st_.test)
+        if other:
+            fails.append(f"has_safe_repr line {st_.lineno}: accepts values by `{other[0][:60]}` (not an exact-type test)")
+        bad = sorted(t for t in types if t not in ALLOWED_CONST_TYPES)
+        for t in bad:
+            why = "its text is written in hash order, which depends on PYTHONHASHSEED" if t in ("set", "frozenset") else "its text is not known to be the same in every process"
+            fails.append(f"has_safe_repr accepts type {t}: {why}")
+        if singles - SINGLETONS:
+            fails.append(f"has_safe_repr accepts `{arg} is {sorted(singles - SINGLETONS)[0]}`")
+        rets = [r for r in ast.walk(st_) if isinstance(r, ast.Return)]
+        if types & CONTAINER_TYPES:
+            for r in rets:
+                txt = ast.unparse(r.value) if r.value is not None else ""
+                calls = [c for c in ast.walk(r) if isinstance(c, ast.Call) and isinstance(c.func, ast.Name) and c.func.id == "has_safe_repr"]
+                ok = txt.startswith("all(") and calls
+                if "dict" in types:
+                    ok = ok and len(calls) >= 2 and ".items()" in txt
+                if not ok:
+                    fails.append(f"has_safe_repr accepts {sorted(types & CONTAINER_TYPES)} without checking every element: `{txt[:80]}`")
+    row("has_safe_repr.types", fails)
+
+    # ---- every compile-time value (result of as_const) that reaches the output stream is guarded by has_safe_repr
+    fails = []
+    sites = 0
+    for modname, clsname in (("jinja2.compiler", "CodeGenerator"), ("jinja2.nativetypes", "NativeCodeGenerator")):
+        mod = importlib.import_module(modname)
+        cls = getattr(mod, clsname)
+        for mname, raw in cls.__dict__.items():
+            f = raw.__func__ if isinstance(raw, (staticmethod, classmethod)) else raw
+            f = inspect.unwrap(f) if callable(f) else f
+            if not inspect.isfunction(f):
+                continue
+            fn, _ = extract.function_ast(f)
+            calls = [c for c in ast.walk(fn) if isinstance(c, ast.Call) and isinstance(c.func, ast.Attribute) and c.func.attr == "as_const"]
+            if not calls:
+                continue
+            sites += len(calls)
+            params = {a.arg: (ast.unparse(a.annotation) if a.annotation is not None else "") for a in fn.args.args}
+            for c in calls:
+                recv = ast.unparse(c.func.value)
+                # (b) the node is a literal node by the visitor's signature: its value comes from the lexer or from Const.from_untrusted
+                if recv in params and params[recv].split(".")[-1] in ("Const", "TemplateData") and mname in ("visit_Const", "visit_TemplateData"):
+                    continue
+                # find the statement that binds the result
+                bound = None
+                for st_ in ast.walk(fn):
+                    if isinstance(st_, ast.Assign) and st_.value is c and len(st_.targets) == 1 and isinstance(st_.targets[0], ast.Name):
+                        bound = (st_, st_.targets[0].id)
+                if bound is None:
+                    fails.append(f"{clsname}.{mname} line {c.lineno}: the result of as_const is used directly (`{ast.unparse(c)[:50]}`), not guarded by has_safe_repr")
+                    continue
+                st_, var = bound
+                holder = next((h for h in ast.walk(fn) for fld in ("body", "orelse", "finalbody") if isinstance(getattr(h, fld, None), list) and st_ in getattr(h, fld)), None)
+                lst = next(getattr(holder, fld) for fld in ("body", "orelse", "finalbody") if isinstance(getattr(holder, fld, None), list) and st_ in getattr(holder, fld))
+                rest = lst[lst.index(st_) + 1:]
+                # (a) immediately guarded:  if not has_safe_repr(var): raise ...Impossible()
+                guarded = False
+                if rest and isinstance(rest[0], ast.If):
+                    t = rest[0].test
+                    if isinstance(t, ast.UnaryOp) and isinstance(t.op, ast.Not) and isinstance(t.operand, ast.Call) and getattr(t.operand.func, "id", "") == "has_safe_repr" \
+                            and [ast.unparse(a) for a in t.operand.args] == [var] and len(rest[0].body) == 1 and isinstance(rest[0].body[0], ast.Raise) \
+                            and "Impossible" in ast.unparse(rest[0].body[0]):
+                        guarded = True
+                if guarded:
+                    continue
+                # (c) the value never reaches the output stream or the returned text
+                reaches = False
+                for n in ast.walk(fn):
+                    if isinstance(n, ast.Call) and isinstance(n.func, ast.Attribute) and n.func.attr in ("write", "writeline", "simple_write") and any(
+                            isinstance(x, ast.Name) and x.id == var for a in n.args for x in ast.walk(a)):
+                        reaches = True
+                    if isinstance(n, ast.Return) and n.value is not None and any(isinstance(x, ast.Name) and x.id == var for x in ast.walk(n.value)):
+                        reaches = True
+                if reaches:
+                    fails.append(f"{clsname}.{mname} line {c.lineno}: `{var} = {ast.unparse(c)[:40]}` reaches the generated source without `if not has_safe_repr({var}): raise Impossible()`: "
+                                 "the text of a set / generator / arbitrary object differs between processes")
+    if sites < 3:
+        fails.append(f"only {sites} as_const sites found in the code generators (expected the output fold, visit_Const, visit_TemplateData)")
+    row("fold_guarded", fails)
+
+    # ---- Const nodes are built from lexer tokens (parser / extensions) or through Const.from_untrusted, which is guarded
+    fails = []
+    fu, _ = extract.function_ast(extract.resolve("jinja2.nodes:Const.from_untrusted"))
+    stmts = [s_ for s_ in fu.body if not (isinstance(s_, ast.Expr) and isinstance(s_.value, ast.Constant)) and not isinstance(s_, (ast.Import, ast.ImportFrom))]
+    ok = (len(stmts) == 2 and isinstance(stmts[0], ast.If) and ast.unparse(stmts[0].test) == "not has_safe_repr(value)" and isinstance(stmts[0].body[0], ast.Raise)
+          and "Impossible" in ast.unparse(stmts[0].body[0]) and isinstance(stmts[1], ast.Return))
+    if not ok:
+        fails.append(f"Const.from_untrusted is not `if not has_safe_repr(value): raise Impossible()` followed by the construction: {ast.unparse(fu)[-160:]!r}")
+    if N.Const.from_untrusted.__func__.__globals__.get("has_safe_repr", C.has_safe_repr) is not C.has_safe_repr:
+        fails.append("nodes.Const.from_untrusted uses another has_safe_repr")
+    for modname in ("jinja2.optimizer", "jinja2.compiler", "jinja2.nodes", "jinja2.nativetypes", "jinja2.runtime", "jinja2.environment", "jinja2.idtracking", "jinja2.meta", "jinja2.visitor"):
+        mod = importlib.import_module(modname)
+        tree, src, path = extract.module_ast(mod)
+        for n in ast.walk(tree):
+            if isinstance(n, ast.Call) and ((isinstance(n.func, ast.Name) and n.func.id == "Const") or (isinstance(n.func, ast.Attribute) and n.func.attr == "Const")):
+                fails.append(f"{modname} line {n.lineno}: a Const node is built directly (`{ast.unparse(n)[:60]}`), not through Const.from_untrusted")
+    row("const_nodes_guarded", fails)
+    return rs
+
+
+_CONSTTEXT_SCRIPT = r"""
+import sys, json
+from markupsafe import Markup
+from jinja2.compiler import has_safe_repr
+leaves = {
+ "None": lambda: None, "True": lambda: True, "7": lambda: 7, "10**30": lambda: 10**30, "1.5": lambda: 1.5, "-0.0": lambda: -0.0, "1j": lambda: 1j,
+ "'txt'": lambda: "txt", "Markup('<b>')": lambda: Markup("<b>"), "range(3)": lambda: range(3), "b'by'": lambda: b"by", "Ellipsis": lambda: Ellipsis,
+ "NotImplemented": lambda: NotImplemented, "object()": lambda: object(), "lambda": lambda: (lambda: 0), "generator": lambda: (x for x in [1]),
+ "instance": lambda: type("T", (), {})(), "set of 6 str": lambda: {"alpha", "beta", "gamma", "delta", "epsilon", "zeta"},
+ "frozenset of 7 str": lambda: frozenset("abcdefg"), "empty set": lambda: set(), "set of one": lambda: {"only"}, "dict view": lambda: {"a": 1}.keys(),
+ "str subclass": lambda: type("S", (str,), {"__repr__": lambda self: "S@%x" % id(self), "__str__": lambda self: "S@%x" % id(self)})("v"),
+ "list subclass": lambda: type("L", (list,), {"__repr__": lambda self: "L@%x" % id(self)})([1]),
+ "bound method": lambda: [].append, "type": lambda: int, "module": lambda: sys,
+}
+wrappers = {"v": lambda v: v, "[v]": lambda v: [v], "(v,)": lambda v: (v,), "{'k': v}": lambda v: {"k": v}, "[[v], 1]": lambda v: [[v], 1], "('s', {'k': (v,)})": lambda v: ("s", {"k": (v,)})}
+out = {}
+for ln, mk in leaves.items():
+    for wn, wrap in wrappers.items():
+        v = wrap(mk())
+        try:
+            acc = bool(has_safe_repr(v))
+        except Exception as ex:
+            acc = "EXC " + type(ex).__name__
+        out[wn.replace("v", ln, 1) if wn != "v" else ln] = [acc, repr(v), str(v)]
+    try:
+        v = {mk(): 1}
+        out["{%s: 1}" % ln] = [bool(has_safe_repr(v)), repr(v), str(v)]
+    except TypeError:
+        pass
+print(json.dumps(out))
+"""
+
+
+def consttext_native(task, tier, seed):
+    """the property's own oracle for has_safe_repr: a value it accepts has the same repr()/str() in every process"""
+    t0 = time.time()
+    root = os.path.dirname(os.path.dirname(os.path.abspath(__file__)))
+    import jinja2
+    src_root = os.path.dirname(os.path.dirname(os.path.abspath(jinja2.__file__)))
+    seeds = (0, 1, 2, 3)
+    procs = []
+    for sd in seeds:
+        env = dict(os.environ)
+        env["PYTHONHASHSEED"] = str(sd)
+        env["PYTHONPATH"] = os.pathsep.join([root, src_root])
+        procs.append(subprocess.Popen([sys.executable, "-c", _CONSTTEXT_SCRIPT], stdout=subprocess.PIPE, stderr=subprocess.PIPE, text=True, env=env))
+    results = []
+    for p in procs:
+        so, se = p.communicate(timeout=120)
+        if p.returncode != 0:
+            return [Res("C30.consttext.native", "error", "native", time.time() - t0, se[-600:], "bounded")]
+        results.append(json.loads(so.strip().splitlines()[-1]))
+    bad = []
+    for k in results[0]:
+        accs = {str(r[k][0]) for r in results}
+        if accs != {"True"}:
+            continue
+        reprs, strs = {r[k][1] for r in results}, {r[k][2] for r in results}
+        if len(reprs) > 1 or len(strs) > 1:
+            bad.append(f"has_safe_repr accepts {k} but its text differs between processes: {sorted(reprs)[:2]}")
+    task.bound_text = (f"{len(results[0])} values (27 leaves: scalars, strings, Markup, range, bytes, sets, frozensets, generators, objects, functions, subclasses with "
+                       f"address-dependent repr, x 6 nestings in list / tuple / dict value, and as dict key) evaluated in {len(seeds)} processes with "
+                       f"PYTHONHASHSEED={seeds}; oracle: has_safe_repr(v) implies repr(v) and str(v) identical in all processes")
+    task.stats = {"values": len(results[0]), "accepted": sum(1 for k in results[0] if results[0][k][0] is True), "seconds": round(time.time() - t0, 2)}
+    if bad:
+        return [Res("C30.consttext.native", "refuted", "native", time.time() - t0, "; ".join(bad[:3])[:800], "bounded", witness={"values": bad[:6]})]
+    return [Res("C30.consttext.native", "bounded-ok", "native", time.time() - t0, f"{task.stats['accepted']} accepted values have process-independent text", "bounded")]
+
+
+def consttext_replay(w=None):
+    rs = consttext_native(FnTask("C30", "C30.consttext.native", None, "bounded"), "quick", 0)
+    v1 = rs[0].status == "refuted"
+    v2, d2 = replay_seeds({"templates": ["fold_generator", "fold_set", "fold_frozenset_nested", "fold_object", "fold_set_assigned", "fold_set_argument"]})
+    return (v1 or v2, (rs[0].detail if v1 else "") + (" | " + d2 if v2 else "") or "accepted constants have process-independent text; folding templates compile identically")
+
+
 # ------------------------------------------------------------------------------------------ typing probe (native, bounded)
 
 _PROBE_SCRIPT = r"""
@@ -777,6 +1020,8 @@ TASKS = (
        FnTask("C30", "C30.lemma.branch_update", hard_timeout("C30.lemma.branch_update"), "vc", replay_seeds)]
     + [FnTask("C30", f"C30.lemma.symbols_inv.{m}", hard_timeout(f"C30.lemma.symbols_inv.{m}"), "vc", replay_seeds) for m in ("_define_ref", "store", "declare_parameter", "load")]
     + [FnTask("C30", "C30.lemma.tables", symbols_tables, "table", replay_seeds),
+       FnTask("C30", "C30.consttext.tables", consttext_tables, "table", consttext_replay),
+       FnTask("C30", "C30.consttext.native", consttext_native, "bounded", consttext_replay),
        FnTask("C30", "C30.typing.probe", typing_probe, "bounded", probe_replay),
        _keyed(FnTask("C30", "C30.native.hashseed", hashseed_standin, "bounded", replay_seeds), native_key)]
 )
